@@ -13,8 +13,8 @@ pub static PROP: PropDef = PropDef {
     builds: opt_and_dbg,
     max_tape: 64,
     cases: |t| match t {
-        Tier::Quick => 40_000,
-        Tier::Thorough => 1_500_000,
+        Tier::Quick => 200_000,
+        Tier::Thorough => 3_000_000,
     },
     fixed: no_fixed,
     check,
